@@ -4,9 +4,9 @@ import RV.Proofs.CacheHandshake
 
 * `ReachBy cfg ok s` — states reachable by runs whose every action satisfies a side condition
   `ok s a` (runs without `Close`: `NoClose`; runs in which `Close` is not overlapped: `ExclClose`).
-* `Own pc pc'` / `Ext pc pc'` — the transition relation of client program counters (by its own steps / by
+* `OwnTr pc pc'` / `Ext pc pc'` — the transition relation of client program counters (by its own steps / by
   another thread's step), and `step_cl` (CacheLiveShape): every step changes every
-  pc either not at all or along `Own`/`Ext`.
+  pc either not at all or along `OwnTr`/`Ext`.
 * `client_shape`, `applier_shape` — every client/applier step is either *plain* (does not touch
   `buf`, `sendq`, `closedMarkers`, `nextMarker`, `closed`, other clients' pcs, and the applier
   only between non-special pcs) or one of the few steps that act on the channel/handshake.
@@ -161,60 +161,60 @@ def chan (s : State) : List BufElem := s.buf ++ s.sendq.map (·.2)
 /-! ### the pc transition relation -/
 
 /-- transitions performed by the client's own steps -/
-inductive Own : CPc → CPc → Prop
-  | setStart_upd {h c v cost ttl i} : Own (.setStart h c v cost ttl) (.setUpd i)
-  | setStart_ret {h c v cost ttl} : Own (.setStart h c v cost ttl) .idle
-  | setUpd_exit {i p} : Own (.setUpd i) (.setExit i p)
-  | setUpd_send {i} : Own (.setUpd i) (.setSend i)
-  | setExit {i p i'} : Own (.setExit i p) (.setSend i')
-  | setSend_true {i} : Own (.setSend i) (.setRetTrue i)
-  | setSend_drop {i} : Own (.setSend i) (.setRetDrop i)
-  | setRetTrue {i} : Own (.setRetTrue i) .idle
-  | setRetDrop {i} : Own (.setRetDrop i) .idle
-  | delStart_ret {h c} : Own (.delStart h c) .idle
-  | delStart_exit {h c p} : Own (.delStart h c) (.delExit h c p)
-  | delExit {h c p} : Own (.delExit h c p) (.delSend h c)
-  | delSend_sent {h c} : Own (.delSend h c) (.delSent h)
-  | delSend_blocked {h c} : Own (.delSend h c) (.delBlocked h)
-  | delSent {h} : Own (.delSent h) .idle
-  | waitStart_ret : Own .waitStart .idle
-  | waitStart_send : Own .waitStart .waitSend
-  | waitSend_recv {id} : Own .waitSend (.waitRecv id)
-  | waitSend_blocked {id} : Own .waitSend (.waitBlocked id)
-  | waitRecv {id} : Own (.waitRecv id) .waitDone
-  | waitDone : Own .waitDone .idle
-  | getStart_ret {h c} : Own (.getStart h c) .idle
-  | getStart_read {h c} : Own (.getStart h c) (.getRead h c)
-  | getRead {h c e} : Own (.getRead h c) (.getCheck h c e)
-  | getCheck {h c e r} : Own (.getCheck h c e) (.getMetric h c r)
-  | getMetric {h c r} : Own (.getMetric h c r) .idle
-  | ttlRead {h c e} : Own (.ttlRead h c) (.ttlCheck h c e)
-  | ttlCheck_ret {h c e} : Own (.ttlCheck h c e) .idle
-  | ttlCheck_exp {h c e} : Own (.ttlCheck h c e) (.ttlExp h c)
-  | ttlExp_ret {h c} : Own (.ttlExp h c) .idle
-  | ttlExp_now {h c exp} : Own (.ttlExp h c) (.ttlNow h c exp)
-  | ttlNow_ret {h c exp} : Own (.ttlNow h c exp) .idle
-  | ttlNow_until {h c exp} : Own (.ttlNow h c exp) (.ttlUntil h c exp)
-  | ttlUntil {h c exp} : Own (.ttlUntil h c exp) .idle
-  | iterStart_ret {n} : Own (.iterStart n) .idle
-  | iterStart_shard {n} : Own (.iterStart n) (.iterShard 0 n [])
-  | iterShard_ret {k n seen} : Own (.iterShard k n seen) .idle
-  | iterShard_next {k n seen seen'} : k + 1 < numShards.toNat → Own (.iterShard k n seen) (.iterShard (k + 1) n seen')
-  | clrStart_ret {c} : Own (.clrStart c) .idle
-  | clrStart_stop {c} : Own (.clrStart c) (.clrStop c)
-  | clrDrain_loop {c} : Own (.clrDrain c) (.clrDrain c)
-  | clrDrain_done {c} : Own (.clrDrain c) (.clrPolicy c)
-  | clrPolicy {c} : Own (.clrPolicy c) (.clrShard c 0)
-  | clrShard_next {c k} : k + 1 < numShards.toNat → Own (.clrShard c k) (.clrShard c (k + 1))
-  | clrShard_done {c k} : Own (.clrShard c k) (.clrEm c)
-  | clrEm {c} : Own (.clrEm c) (.clrMetrics c)
-  | clrMetrics {c} : Own (.clrMetrics c) (.clrRestart c)
-  | clrRestart_ret : Own (.clrRestart false) .idle
-  | clrRestart_close : Own (.clrRestart true) .clsStop
-  | clsFinish : Own .clsFinish .idle
-  | updMax {m} : Own (.updMax m) .idle
-  | readMax : Own .readMax .idle
-  | readRem : Own .readRem .idle
+inductive OwnTr : CPc → CPc → Prop
+  | setStart_upd {h c v cost ttl i} : OwnTr (.setStart h c v cost ttl) (.setUpd i)
+  | setStart_ret {h c v cost ttl} : OwnTr (.setStart h c v cost ttl) .idle
+  | setUpd_exit {i p} : OwnTr (.setUpd i) (.setExit i p)
+  | setUpd_send {i} : OwnTr (.setUpd i) (.setSend i)
+  | setExit {i p i'} : OwnTr (.setExit i p) (.setSend i')
+  | setSend_true {i} : OwnTr (.setSend i) (.setRetTrue i)
+  | setSend_drop {i} : OwnTr (.setSend i) (.setRetDrop i)
+  | setRetTrue {i} : OwnTr (.setRetTrue i) .idle
+  | setRetDrop {i} : OwnTr (.setRetDrop i) .idle
+  | delStart_ret {h c} : OwnTr (.delStart h c) .idle
+  | delStart_exit {h c p} : OwnTr (.delStart h c) (.delExit h c p)
+  | delExit {h c p} : OwnTr (.delExit h c p) (.delSend h c)
+  | delSend_sent {h c} : OwnTr (.delSend h c) (.delSent h)
+  | delSend_blocked {h c} : OwnTr (.delSend h c) (.delBlocked h)
+  | delSent {h} : OwnTr (.delSent h) .idle
+  | waitStart_ret : OwnTr .waitStart .idle
+  | waitStart_send : OwnTr .waitStart .waitSend
+  | waitSend_recv {id} : OwnTr .waitSend (.waitRecv id)
+  | waitSend_blocked {id} : OwnTr .waitSend (.waitBlocked id)
+  | waitRecv {id} : OwnTr (.waitRecv id) .waitDone
+  | waitDone : OwnTr .waitDone .idle
+  | getStart_ret {h c} : OwnTr (.getStart h c) .idle
+  | getStart_read {h c} : OwnTr (.getStart h c) (.getRead h c)
+  | getRead {h c e} : OwnTr (.getRead h c) (.getCheck h c e)
+  | getCheck {h c e r} : OwnTr (.getCheck h c e) (.getMetric h c r)
+  | getMetric {h c r} : OwnTr (.getMetric h c r) .idle
+  | ttlRead {h c e} : OwnTr (.ttlRead h c) (.ttlCheck h c e)
+  | ttlCheck_ret {h c e} : OwnTr (.ttlCheck h c e) .idle
+  | ttlCheck_exp {h c e} : OwnTr (.ttlCheck h c e) (.ttlExp h c)
+  | ttlExp_ret {h c} : OwnTr (.ttlExp h c) .idle
+  | ttlExp_now {h c exp} : OwnTr (.ttlExp h c) (.ttlNow h c exp)
+  | ttlNow_ret {h c exp} : OwnTr (.ttlNow h c exp) .idle
+  | ttlNow_until {h c exp} : OwnTr (.ttlNow h c exp) (.ttlUntil h c exp)
+  | ttlUntil {h c exp} : OwnTr (.ttlUntil h c exp) .idle
+  | iterStart_ret {n} : OwnTr (.iterStart n) .idle
+  | iterStart_shard {n} : OwnTr (.iterStart n) (.iterShard 0 n [])
+  | iterShard_ret {k n seen} : OwnTr (.iterShard k n seen) .idle
+  | iterShard_next {k n seen seen'} : k + 1 < numShards.toNat → OwnTr (.iterShard k n seen) (.iterShard (k + 1) n seen')
+  | clrStart_ret {c} : OwnTr (.clrStart c) .idle
+  | clrStart_stop {c} : OwnTr (.clrStart c) (.clrStop c)
+  | clrDrain_loop {c} : OwnTr (.clrDrain c) (.clrDrain c)
+  | clrDrain_done {c} : OwnTr (.clrDrain c) (.clrPolicy c)
+  | clrPolicy {c} : OwnTr (.clrPolicy c) (.clrShard c 0)
+  | clrShard_next {c k} : k + 1 < numShards.toNat → OwnTr (.clrShard c k) (.clrShard c (k + 1))
+  | clrShard_done {c k} : OwnTr (.clrShard c k) (.clrEm c)
+  | clrEm {c} : OwnTr (.clrEm c) (.clrMetrics c)
+  | clrMetrics {c} : OwnTr (.clrMetrics c) (.clrRestart c)
+  | clrRestart_ret : OwnTr (.clrRestart false) .idle
+  | clrRestart_close : OwnTr (.clrRestart true) .clsStop
+  | clsFinish : OwnTr .clsFinish .idle
+  | updMax {m} : OwnTr (.updMax m) .idle
+  | readMax : OwnTr .readMax .idle
+  | readRem : OwnTr .readRem .idle
 
 /-- transitions of a client's pc performed by another thread's step (or by `spawn`) -/
 inductive Ext : CPc → CPc → Prop
@@ -241,7 +241,7 @@ structure Plain (s : State) (t : Tid) (s' : State) : Prop where
   closed : s'.closed = s.closed
   cl_ne : ∀ t', t' ≠ t → s'.cl t' = s.cl t'
   src : (s.cl t).special = false
-  succ : Own (s.cl t) (s'.cl t)
+  succ : OwnTr (s.cl t) (s'.cl t)
 
 /-- an applier step that acts neither on the channel, nor on markers, nor on the handshake -/
 structure APlain (s s' : State) : Prop where
